@@ -654,6 +654,10 @@ impl Add for Natural {
                         vec.push(lower);
                     }
                 }
+                if vec.len() < vec.capacity() {
+                    // the digit reserved for a carry is not needed
+                    vec.push(0);
+                }
             } else {
                 vec.extend_from_slice(&l_digits[..start_digit]);
                 let mut lower = 0;
